@@ -1297,7 +1297,13 @@ class SMPose(SMUserList):
 
         """
         assert type(left) == type(right), 'operands to == are of different types'
-        return left._op2(right, lambda x, y: np.allclose(x, y))
+        def equal(x, y):
+            if x.dtype == 'O' or y.dtype == 'O':
+                # symbolic values: structural equality of the elements
+                return bool(np.all(x == y))
+            return np.allclose(x, y)
+
+        return left._op2(right, equal)
 
     def __ne__(left, right):  # lgtm[py/not-named-self] pylint: disable=no-self-argument
         """
